@@ -61,10 +61,53 @@ def spec_h2p(msg, n):
     return r[0]
 
 
+def critical_values(b):
+    """16-bit chunk values at which the counterexample's outputs diverge from Algorithm 3 (plus the boundary values)"""
+    ch = chunks(b['stream'])
+    crit = set(c for c in ch if c in (KQ - 1, KQ, KQ + 1, 0xffff) or (c < KQ and c % spec.Q in (0, spec.Q - 1)))
+    got, want = b.get('got') or [], b.get('want') or []
+    acc = [c for c in ch if c < KQ]
+    for k in range(max(len(got), len(want))):
+        g = got[k] if k < len(got) else None; w = want[k] if k < len(want) else None
+        if g != w:
+            if k < len(acc): crit.add(acc[k])
+            break
+    return crit
+
+
+def find_message_containing(values, nchunks=600, budget=60000):
+    for k in range(budget):
+        m = b'verif-c14-v-%d' % k
+        c2 = chunks(hashlib.shake_256(m).digest(2 * nchunks))
+        if any(c in values for c in c2):
+            return m
+    return None
+
+
 def confirm(rep, b):
     n = b['n']
     if b.get('stream') is None:
         rep.note_inconclusive('C14 finding without a stream: %s' % b['kind']); return
+    # (1) a message whose stream contains a value at which the outputs diverge, replayed at the production degrees
+    crit = critical_values(b)
+    if crit:
+        tried = 0
+        for k in range(400000):
+            if tried >= 6: break
+            m = b'verif-c14-v-%d' % k
+            if not any(c in crit for c in chunks(hashlib.shake_256(m).digest(1400))):
+                continue
+            tried += 1
+            for nn in (512, 1024):
+                want = ','.join(map(str, spec_h2p(m, nn)))
+                dev, rel = replay.both(['hash_to_point', nn, m.hex()])
+                rep.replayed += 1
+                if dev != want or rel != want:
+                    rep.violation('hash_to_point:differs-from-algorithm-3', 'hash_to_point(%r, n=%d) differs from Algorithm 3 (%d vs %d coefficients; first difference at index %s); stream contains a critical chunk value from %s'
+                                  % (m, nn, len(dev.split(',')), len(want.split(',')), next((i for i, (x, y) in enumerate(zip(dev.split(','), want.split(','))) if x != y), 'end'), sorted(crit)[:6]),
+                                  {'replay_request': ['hash_to_point', nn, m.hex()], 'expected': want[:200], 'dev': dev[:200], 'release': rel[:200]})
+                    return True
+    # (2) a message reproducing the accept / reject pattern of the counterexample at toy n
     msg = find_message(b['stream'], n)
     if msg is None:
         # fall back: production sizes on a handful of messages that exercise rejections
